@@ -325,7 +325,7 @@ func (c *Ctx) rulePathSeg(rule string) {
 		for _, r := range core.ReturnsOf(fn) {
 			// which child call's failure does this return belong to?
 			var child *ssa.Call
-			for _, cond := range core.CondsAt(r.Block()) {
+			for _, cond := range r.Conds() {
 				x, neq, ok := core.NilCmp(cond.V)
 				if !ok || neq != cond.True {
 					continue
